@@ -15,7 +15,7 @@ def replay_engine(crate, scenario, oid, what, label="BOUNDED (fallback, consulte
         m = re.search(r"RESULT %s (ok|VIOLATED)(.*)" % re.escape(scenario), p.stdout)
         if not m:
             out["tool_errors"].append("fallback %s: no result: %s" % (scenario, (p.stdout + p.stderr)[-400:])); return out
-        out["obligations"][oid] = {"unit": "replay/" + crate, "clause": label + what, "instances": 1,
+        out["obligations"][oid] = {"unit": "replay/" + crate, "clause": getattr(eng, "vx_label", label) + what, "instances": 1,
                                    "ok": m.group(1) == "ok", "back_end": "execution of the real code", "kind": "execution"}
         if m.group(1) != "ok":
             out["violations"].append({"property": prop, "obligation": oid, "unit": "replay/" + crate, "item": None, "verus_message": "bounded execution found a failing input",
@@ -23,6 +23,7 @@ def replay_engine(crate, scenario, oid, what, label="BOUNDED (fallback, consulte
                                       "counterexample": {"failing_input": m.group(2).strip(), "replay_cmd": "replay/run.sh %s %s" % (crate, scenario)},
                                       "note": "found by bounded execution of the real code (fallback engine); the deductive check itself was undecided"})
         return out
+    eng.vx_scenario = scenario
     return eng
 
 def _hist(crate, scenario, prop, what):
@@ -41,13 +42,14 @@ def script_engine(script, scenario, oid, what, label="BOUNDED (fallback / thorou
         m = re.search(r"RESULT %s (ok|VIOLATED)(.*)" % re.escape(scenario), p.stdout)
         if not m:
             out["tool_errors"].append("fallback %s: no result: %s" % (scenario, (p.stdout + p.stderr)[-400:])); return out
-        out["obligations"][oid] = {"unit": "replay/" + script, "clause": label + what, "instances": 1, "ok": m.group(1) == "ok", "back_end": "execution of the real binary", "kind": "execution"}
+        out["obligations"][oid] = {"unit": "replay/" + script, "clause": getattr(eng, "vx_label", label) + what, "instances": 1, "ok": m.group(1) == "ok", "back_end": "execution of the real binary", "kind": "execution"}
         if m.group(1) != "ok":
             out["violations"].append({"property": prop, "obligation": oid, "unit": "replay/" + script, "item": None, "verus_message": "bounded execution found a failing input",
                                       "sites": [{"item": None, "file": None, "line": None, "stmt": scenario}], "clause": what, "verus_output": p.stdout[-2000:],
                                       "counterexample": {"failing_input": m.group(2).strip(), "replay_cmd": "replay/" + script},
                                       "note": "found by bounded execution of the real binary"})
         return out
+    eng.vx_scenario = scenario
     return eng
 
 def nixtable_engine(prop, tier, work):
@@ -283,3 +285,21 @@ PROPS["C12"]["thorough_engines"] = [script_engine("cli_flag_sources.py", "cli_fl
     "10 flag sets x 6 ignore sources (project .gitignore/.ignore, global git/watchexec ignore, --ignore-file, --ignore) on the real binary: each source is honoured exactly when no given flag names it")]
 PROPS["C14"]["thorough_engines"] = [replay_engine("ignorefiles", "discovery_exact_on_a_small_tree", "C14.bounded.discovery_exact_on_a_small_tree",
     "from_origin on one hand-made tree (prefix-named siblings, two ignore files in one directory, an ignored subtree, a VCS metadata directory, an empty file, nested directories): exactly the applicable files, each tagged with its directory")]
+
+# Deterministic bounded executions of the real code run in the QUICK tier too (they take seconds, depend on no timing, and cover code the
+# extraction does not reach: the pattern-line loops of add_file/add_globs, the discovery head of dirs::ignores, the shell-selection head of
+# interpret_command_args). Timing-sensitive executions (event streams, control sequences, CLI runs with sleeps, history replays) stay in the
+# thorough tier and as fallbacks.
+def _promote(prop, pred):
+    te = PROPS[prop].get("thorough_engines", [])
+    fb = PROPS[prop].get("fallback", [])
+    mv = [e for e in te if pred(e)]
+    for e in mv: e.vx_label = "BOUNDED EXECUTION of the real code (deterministic, run in every tier; never counted as proof): "
+    PROPS[prop]["engines"] = PROPS[prop].get("engines", []) + mv
+    PROPS[prop]["thorough_engines"] = [e for e in te if e not in mv]
+    PROPS[prop]["fallback"] = [e for e in fb if e not in mv]
+_promote("C03", lambda e: getattr(e, "vx_scenario", "") == "ignore_rule_bounded")
+_promote("C20", lambda e: getattr(e, "vx_scenario", "") == "origins_markers_bounded")
+_promote("C11", lambda e: getattr(e, "vx_scenario", "") == "globset_rule_bounded")
+_promote("C14", lambda e: getattr(e, "vx_scenario", "") == "discovery_exact_on_a_small_tree")
+_promote("C18", lambda e: getattr(e, "vx_scenario", "") in ("argv_exact_bounded", "cli_argv"))
